@@ -15,6 +15,9 @@ from mdsa.astutil import call_attr, kwarg, local_calls, norm, store_targets
 from mdsa.cfg import walk_local
 from mdsa.loader import AnalysisError
 
+from mdsa import match as MM
+
+from .sem import F
 from .common import Ctx, local_defs
 
 D = "util.diff"
@@ -45,108 +48,39 @@ def run(P, rep, tier):
 
 
 # ------------------------------------------------------------------------------------------- R1
-def emission_events(fi) -> Tuple[List[Tuple[str, str]], List[str]]:
-    """[(kind, detail)] in emission order: ('self','') | ('bucket', name:sorted?:recursive?) ; plus notes."""
-    events: List[Tuple[str, str]] = []
-    notes: List[str] = []
-    defs = local_defs(fi)
-    acc = None
-    for name, ds in defs.items():
-        if any(v is not None and norm(v) == "[]" for k, v in ds):
-            acc = name
-
-    def bucket_events(iter_expr, target, body, bname=None):
-        it = iter_expr
-        is_sorted = isinstance(it, ast.Call) and norm(it.func) == "sorted" and kwarg(it, "key") is not None and norm(kwarg(it, "key")) in ("lambda x: x.path", "lambda v: v.path", "lambda n: n.path")
-        src = it.args[0] if isinstance(it, ast.Call) and it.args else it
-        sname = norm(src)
-        if bname is not None:
-            sname = sname.replace(bname[0], bname[1])
-        rec = any(isinstance(s, ast.AugAssign) and norm(s.target) == acc and norm(s.value) == f"{norm(target)}.nodes()" for s in body) or any(isinstance(s, ast.Expr) and norm(s.value) == f"{acc}.extend({norm(target)}.nodes())" for s in body)
-        events.append(("bucket", f"{sname}|sorted={is_sorted}|recursive={rec}"))
-
-    def visit(body, subst=None):
-        for st in body:
-            if isinstance(st, ast.Expr) and isinstance(st.value, ast.Constant):
-                continue
-            if isinstance(st, (ast.Assign, ast.AnnAssign)):
-                continue
-            if isinstance(st, ast.Expr) and norm(st.value) == f"{acc}.append(self)":
-                events.append(("self", ""))
-            elif isinstance(st, ast.For):
-                itd = st.iter
-                lit = None
-                if isinstance(itd, ast.Name):
-                    ds = [v for k, v in defs.get(itd.id, []) if v is not None]
-                    if len(ds) == 1 and isinstance(ds[0], (ast.List, ast.Tuple)):
-                        lit = ds[0]
-                elif isinstance(itd, (ast.List, ast.Tuple)):
-                    lit = itd
-                if lit is not None:
-                    for el in lit.elts:
-                        unroll(st, el)
-                else:
-                    bucket_events(st.iter, st.target, st.body, subst)
-            elif isinstance(st, ast.If):
-                notes.append(f"conditional outside a literal loop: if {norm(st.test)}")
-                if any(isinstance(x, ast.Return) for b in st.body for x in ast.walk(b)):
-                    events.append(("early-return", norm(st.test)))
-            elif isinstance(st, ast.Return):
-                events.append(("return", norm(st.value) if st.value is not None else "None"))
-            else:
-                notes.append(f"unrecognised statement: {norm(st)[:60]}")
-
-    def unroll(loop: ast.For, el: ast.AST):
-        tv = norm(loop.target)
-        for st in loop.body:
-            if isinstance(st, ast.If) and norm(st.test) in (f"{tv} is None", f"{tv} is not None"):
-                is_none = isinstance(el, ast.Constant) and el.value is None
-                pos = norm(st.test) == f"{tv} is None"
-                branch = st.body if (is_none == pos) else st.orelse
-                for s in branch:
-                    if isinstance(s, ast.Expr) and norm(s.value) == f"{acc}.append(self)":
-                        events.append(("self", ""))
-                    elif isinstance(s, ast.For):
-                        bucket_events(s.iter, s.target, s.body, (tv, norm(el)))
-                    else:
-                        notes.append(f"unrecognised statement in loop: {norm(s)[:60]}")
-            else:
-                notes.append(f"unrecognised loop body: {norm(st)[:60]}")
-
-    visit(fi.node.body)
-    return events, notes
-
-
 def r1_emission_order(P, rep, ctx):
+    from mdsa.listbuild import Unrecognised, emission_sequences
+
     fi = P.func(f"{D}.DiffNode.nodes")
-    ev, notes = emission_events(fi)
-    seq = [k if k != "bucket" else d.split("|")[0].replace(".values()", "") for k, d in ev]
-    order = [s for s in seq if s in ("self.removed", "self.modified", "self", "self.added")]
-    if notes and "self" not in order:
-        raise AnalysisError(f"C18.R1: nodes() has an unrecognised shape: {notes}")
+    try:
+        seqs, notes = emission_sequences(fi.node, "nodes")
+    except Unrecognised as e:
+        raise AnalysisError(f"C18.R1: nodes() has an unrecognised shape: {e}")
     loc = fi.loc()
-    rep.check(order.count("self") == 1, "C18.R1", fi.qual, "the node itself is emitted exactly once", loc, construct=f"emission sequence {order}", message=f"nodes() emits the node itself {order.count('self')} times: {order}")
-    if "self" in order:
-        i = order.index("self")
-        rep.check("self.removed" in order[:i] and "self.removed" not in order[i:], "C18.R1", fi.qual, "removed children are emitted before the node itself (a parent is never removed/replaced before its children)", loc,
-                  construct=f"removed before self in {order}", message=f"nodes() emits in the order {order}: removed children do not all precede the node itself, so a parent can be removed or replaced before its children")
-        rep.check("self.added" in order[i + 1:] and "self.added" not in order[:i], "C18.R1", fi.qual, "added children are emitted after the node itself (a child is never created before its parent)", loc,
-                  construct=f"added after self in {order}", message=f"nodes() emits in the order {order}: added children do not all follow the node itself, so a child can be created before its parent exists")
-        rep.check("self.modified" in order and order.index("self.modified") < order.index("self.added") if "self.added" in order and "self.modified" in order else False, "C18.R1", fi.qual, "modified children are emitted, and not after the added ones", loc,
-                  construct=f"modified in {order}", message=f"nodes() order {order}: modified children missing or after added ones")
-    for k, d in ev:
-        if k == "bucket":
-            name, s, r = d.split("|")
-            rep.check(s == "sorted=True" and r == "recursive=True", "C18.R1", fi.qual, f"children of {name} are emitted in sorted path order through their own nodes()", loc, construct=f"bucket {d}", message=f"bucket {name}: {s}, {r} (children must be sorted by path and expanded recursively via nodes())")
-    early = [d for k, d in ev if k == "early-return"]
-    rets = [x for x in walk_local(fi.node) if isinstance(x, ast.Return)]
-    acc = [n for n, ds in local_defs(fi).items() if any(v is not None and norm(v) == "[]" for k, v in ds)]
-    ok = not early and len(rets) == 1 and acc and norm(rets[0].value) == acc[0]
-    rep.check(ok, "C18.R1", fi.qual, "nodes() has a single return: the completely built list", loc, construct=f"returns {[norm(r.value) for r in rets]}",
-              message=f"nodes() can return before all buckets were emitted ({[norm(r.value) for r in rets]}{', shortcut if ' + early[0] if early else ''}): e.g. former children of a directory replaced by a file are missing from the listing")
+    for ev in seqs:
+        order = [t if t == "self" else t[1] for t in ev]
+        tag = "" if len(seqs) == 1 else f" [on the path returning {order}]"
+        rep.check(order.count("self") == 1, "C18.R1", fi.qual, "the node itself is emitted exactly once", loc, construct="self emitted once" + tag, message=f"nodes() emits the node itself {order.count('self')} times: {order}")
+        complete = set(order) >= {"self", "self.removed", "self.modified", "self.added"}
+        rep.check(complete, "C18.R1", fi.qual, "nodes() returns the completely built list", loc, construct="complete listing" + tag,
+                  message=f"nodes() can return before all buckets were emitted ({order}{'; ' + notes[0] if notes else ''}): e.g. former children of a directory replaced by a file are missing from the listing")
+        if "self" in order and complete:
+            i = order.index("self")
+            rep.check("self.removed" in order[:i] and "self.removed" not in order[i:], "C18.R1", fi.qual, "removed children are emitted before the node itself (a parent is never removed/replaced before its children)", loc,
+                      construct="removed before self" + tag, message=f"nodes() emits in the order {order}: removed children do not all precede the node itself, so a parent can be removed or replaced before its children")
+            rep.check("self.added" in order[i + 1:] and "self.added" not in order[:i], "C18.R1", fi.qual, "added children are emitted after the node itself (a child is never created before its parent)", loc,
+                      construct="added after self" + tag, message=f"nodes() emits in the order {order}: added children do not all follow the node itself, so a child can be created before its parent exists")
+            rep.check(order.index("self.modified") < order.index("self.added"), "C18.R1", fi.qual, "modified children are emitted, and not after the added ones", loc,
+                      construct="modified placement" + tag, message=f"nodes() order {order}: modified children missing or after added ones")
+        for t in ev:
+            if t != "self":
+                _, name, is_sorted, rec = t
+                rep.check(is_sorted and rec, "C18.R1", fi.qual, f"children of {name} are emitted in sorted path order through their own nodes()", loc, construct=f"bucket {name}" + tag, message=f"bucket {name}: sorted={is_sorted}, recursive={rec} (children must be sorted by path and expanded recursively via nodes())")
     an = P.func(f"{D}.DirDiff.annotate")
-    t = norm(an.node)
-    rep.check("nodes = self._diff_root.nodes()" in t and "path_nodes = {node.path: node for node in nodes}" in t, "C18.R1", an.qual, "annotate lists the diff in nodes() order", an.loc(), construct="annotate order", message="annotate does not preserve the nodes() order")
+    af = F(ctx, an)
+    comps = [x for x in ast.walk(an.node) if isinstance(x, ast.DictComp) and len(x.generators) == 1 and af.x(x.generators[0].iter) == "self._diff_root.nodes()" and not x.generators[0].ifs and norm(x.key) == norm(x.generators[0].target) + ".path" and norm(x.value) == norm(x.generators[0].target)]
+    loops = [n for n in af.g.nodes if n.kind == "for" and af.x(n.stmt.iter) == "self._diff_root.nodes()"]
+    rep.check(bool(comps) or bool(loops), "C18.R1", an.qual, "annotate lists the diff in nodes() order", an.loc(), construct="annotate order", message="annotate does not preserve the nodes() order")
 
 
 # ------------------------------------------------------------------------------------------- R2
@@ -176,19 +110,20 @@ def r2_case_analysis(P, rep, ctx):
     fi = P.func(f"{D}.DiffNode.compare")
     g = ctx.cfg(fi)
     pv, cv = fi.params[1], fi.params[2]
+    fx = F(ctx, fi)
     for pk in KINDS:
         for ck in KINDS:
             kinds = {pv: pk, cv: ck}
             block = []
             for t in g.nodes:
                 if t.kind == "test":
-                    r = kind_eval(t.exprs[0], kinds)
+                    r = kind_eval(fx.xe_at(t.idx, t.exprs[0]), kinds)
                     if r is True:
                         block.append((t.idx, "F"))
                     elif r is False:
                         block.append((t.idx, "T"))
                 elif t.kind == "stmt" and isinstance(t.stmt, ast.Assert):
-                    r = kind_eval(t.stmt.test, kinds)
+                    r = kind_eval(fx.xe_at(t.idx, t.stmt.test), kinds)
                     if r is False:
                         # assertion fails for this cell -> no normal continuation
                         block += [(t.idx, "")]
@@ -223,65 +158,140 @@ def r2_case_analysis(P, rep, ctx):
                 ok = set(stores) == {"added", "removed", "modified"} and rets == ["None", "ret"]
                 rep.check(ok, "C18.R2", fi.qual, f"cell {cell}: three-way split of the keys", loc, construct=f"cell {cell}: returns {rets}, stores {sorted(stores)}", message=f"compare for {cell}: returns {rets}, fills {sorted(stores)}")
     # roles of the recursive calls, per loop
-    roles = []
-    for loop in (x for x in walk_local(fi.node) if isinstance(x, ast.For)):
-        it = norm(loop.iter)
-        calls = [c for b in loop.body for c in ast.walk(b) if isinstance(c, ast.Call) and norm(c.func) == "cls.compare"]
-        st = [norm(t).split("[")[0] for b in loop.body for s in ast.walk(b) if isinstance(s, ast.Assign) for t in s.targets if norm(t).startswith("ret.")]
-        for c in calls:
-            roles.append((it, tuple(norm(a) for a in c.args[:2]), tuple(st)))
-    defs = local_defs(fi)
-    sets = {n: norm(v) for n in ("added", "removed", "intersection", "prev_keys", "curr_keys") for k, v in defs.get(n, []) if v is not None}
-    want_sets = {"added": "curr_keys - prev_keys", "removed": "prev_keys - curr_keys", "prev_keys": f"set({pv}.keys())", "curr_keys": f"set({cv}.keys())"}
-    rep.check(all(sets.get(k) == v for k, v in want_sets.items()) and sets.get("intersection") in ("(prev_keys | curr_keys) - added - removed", "prev_keys & curr_keys"), "C18.R2", fi.qual, "key sets: added = curr - prev, removed = prev - curr, common = the rest", fi.loc(),
-              construct=f"key sets {sets}", message=f"compare partitions the keys as {sets}")
-    want_roles = {
-        (f"{cv}.items()", ("None", "v"), ("ret.added",)), (f"{pv}.items()", ("v", "None"), ("ret.removed",)),
-        ("added", ("None", f"{cv}[k]"), ("ret.added",)), ("removed", (f"{pv}[k]", "None"), ("ret.removed",)), ("intersection", (f"{pv}[k]", f"{cv}[k]"), ("ret.modified",)),
+    import re as _re
+
+    f = F(ctx, fi)
+    rets_all = [v for _, v in f.returns() if v is not None and isinstance(v, ast.Name)]
+    rv = rets_all[0].id if rets_all else "ret"
+    parents = {}
+    for par in ast.walk(fi.node):
+        for ch in ast.iter_child_nodes(par):
+            parents[id(ch)] = par
+
+    def enclosing_for(st):
+        cur = st
+        while id(cur) in parents:
+            cur = parents[id(cur)]
+            if isinstance(cur, ast.For):
+                return cur
+        return None
+
+    def canon(t: str) -> str:
+        for X in (pv, cv):
+            t = t.replace(f"set({X}.keys())", f"K({X})").replace(f"set({X})", f"K({X})").replace(f"{X}.keys()", f"K({X})")
+        return t
+
+    roles = set()
+    for b_ in ("added", "removed", "modified"):
+        for i_, v_, bd in f.stores(f"{rv}.{b_}[__k]"):
+            call = f.xe_at(i_, v_)
+            m = MM.match("cls.compare(__a, __b, __p)", call)
+            loop = enclosing_for(g.nodes[i_].stmt)
+            if m is None or loop is None:
+                roles.add(("?", (norm(call)[:40],), b_))
+                continue
+            tg = loop.target
+            kv = norm(tg.elts[0]) if isinstance(tg, ast.Tuple) else norm(tg)
+            vv = norm(tg.elts[1]) if isinstance(tg, ast.Tuple) and len(tg.elts) > 1 else None
+
+            def ph(e):
+                t = norm(e)
+                t = _re.sub(rf"\b{_re.escape(kv)}\b", "K", t)
+                if vv:
+                    t = _re.sub(rf"\b{_re.escape(vv)}\b", "V", t)
+                return t
+
+            okp = ph(m["__p"]) == f"{rv}.path / K" and ph(f.xe_at(i_, bd["__k"])) == f"{rv}.path / K"
+            roles.add((canon(f.x(loop.iter)), (ph(m["__a"]), ph(m["__b"])), b_ if okp else b_ + "(wrong path)"))
+    A_, R_ = f"K({cv}) - K({pv})", f"K({pv}) - K({cv})"
+    common = {f"(K({pv}) | K({cv})) - ({A_}) - ({R_})", f"K({pv}) | K({cv}) - ({A_}) - ({R_})", f"K({pv}) & K({cv})", f"K({cv}) & K({pv})", f"K({pv}).intersection(K({cv}))"}
+    want_fixed = {
+        (f"{cv}.items()", ("None", "V"), "added"), (f"{pv}.items()", ("V", "None"), "removed"),
+        (A_, ("None", f"{cv}[K]"), "added"), (R_, (f"{pv}[K]", "None"), "removed"),
     }
-    got = set(roles)
-    rep.check(got == want_roles, "C18.R2", fi.qual, "recursive calls carry the right roles into the right buckets", fi.loc(), construct=f"roles {sorted(got)}",
-              message=f"compare feeds the buckets with wrong roles: unexpected {sorted(got - want_roles)}, missing {sorted(want_roles - got)}")
-    mod = [x for x in walk_local(fi.node) if isinstance(x, ast.If) and norm(x.test) == "diff is not None"]
-    rep.check(len(mod) == 1 and "ret.modified[kpath] = diff" in norm(mod[0]), "C18.R2", fi.qual, "a common key is reported as modified iff its recursive comparison found a difference", fi.loc(), construct="modified iff diff", message="common keys are not reported exactly when their comparison is not None")
-    sd = [norm(v) for k, v in defs.get("same_dir", []) if v is not None]
-    rep.check(sd == ["not ret.added and (not ret.removed) and (not ret.modified)"], "C18.R2", fi.qual, "'no difference' for directories iff all three buckets are empty", fi.loc(), construct=f"same_dir = {sd}", message=f"same_dir is {sd}")
-    sdt = [t.idx for t in g.nodes if t.kind == "test" and norm(t.exprs[0]) == "same_dir"]
-    rep.check(bool(sdt) and all(all(isinstance(g.nodes[b].stmt, ast.Return) and norm(g.nodes[b].stmt.value) == "None" for b, l in g.succ[t] if l == "T") and all(isinstance(g.nodes[b].stmt, ast.Return) and norm(g.nodes[b].stmt.value) == "ret" for b, l in g.succ[t] if l == "F") for t in sdt), "C18.R2", fi.qual,
+    got_common = {r for r in roles if r[2] == "modified"}
+    ok_roles = (roles - got_common) == want_fixed and len(got_common) == 1 and all(r[0].replace("(" + A_ + ")", "(" + A_ + ")") in common and r[1] == (f"{pv}[K]", f"{cv}[K]") for r in got_common)
+    rep.check(ok_roles, "C18.R2", fi.qual, "recursive calls carry the right roles into the right buckets (added = curr - prev, removed = prev - curr, common = the rest)", fi.loc(), construct="bucket roles",
+              message=f"compare feeds the buckets with wrong roles / key sets: {sorted(roles)}")
+    mod_st = [i_ for i_, v_, bd in f.stores(f"{rv}.modified[__k]")]
+    differs = f.tests("cls.compare(__a, __b, __p) is not None")
+    okm = bool(mod_st) and bool(differs) and f.all_hit_before(mod_st, edges=differs)
+    for i_ in mod_st:
+        loop = enclosing_for(g.nodes[i_].stmt)
+        ln = next((n.idx for n in g.nodes if n.kind == "for" and n.stmt is loop), None)
+        okm = okm and ln is not None and all(f.hit_before(ln, nodes=mod_st, src_edge=e) for e in differs)
+    rep.check(okm, "C18.R2", fi.qual, "a common key is reported as modified iff its recursive comparison found a difference", fi.loc(), construct="modified iff diff", message="common keys are not reported exactly when their comparison is not None")
+    t_add, t_rem, t_mod = f.tests(f"{rv}.added"), f.tests(f"{rv}.removed"), f.tests(f"{rv}.modified")
+    all_rets = [(i_, v_) for i_, v_ in f.returns()]
+    dir_rets = [(i_, v_) for i_, v_ in all_rets if t_add and f.hit_before(i_, nodes=f.test_nodes(t_add))]
+    none_r = [i_ for i_, v_ in dir_rets if v_ is None or (isinstance(v_, ast.Constant) and v_.value is None)]
+    node_r = [i_ for i_, v_ in dir_rets if isinstance(v_, ast.Name) and v_.id == rv]
+    oks = all((t_add, t_rem, t_mod, none_r, node_r)) and all(f.under_all(i_, [f.neg(t_add), f.neg(t_rem), f.neg(t_mod)]) for i_ in none_r) and all(f.hit_before(i_, edges=t_add + t_rem + t_mod) for i_ in node_r) and len(none_r) + len(node_r) == len(dir_rets)
+    rep.check(oks, "C18.R2", fi.qual, "'no difference' for directories iff all three buckets are empty", fi.loc(), construct="same_dir definition", message="'no difference' for directories is not decided by the emptiness of all three buckets")
+    rep.check(oks, "C18.R2", fi.qual,
               "identical directories give None, different ones the node", fi.loc(), construct="same_dir branch", message="compare returns the node for identical directories / None for different ones")
     from .common import require_total
 
     for q in (f"{D}.DiffNode.compare", f"{D}.DiffNode.nodes", f"{D}.DiffNode.children", f"{D}.DiffNode.status", f"{D}.DirDiff.get", f"{D}.DirDiff.annotate", f"{D}.DirDiff.status", f"{D}.DirDiff.compare", f"{D}.dir_paths"):
         require_total(rep, ctx, "C18.R2", P.func(q))
-    rep.check("kpath = ret.path / k" in norm(fi.node) and "ret = cls(path=path, prev=prev, curr=curr)" in norm(fi.node), "C18.R2", fi.qual, "child paths extend the node's path; the node records old and new entry", fi.loc(), construct="paths / entries", message="compare does not build child paths as ret.path / k or record prev/curr")
+    rd = [norm(v) for k, v in local_defs(fi).get(rv, []) if v is not None]
+    rep.check(rd == [f"cls(path={fi.params[3]}, prev={pv}, curr={cv})"] and not any("(wrong path)" in r[2] for r in roles), "C18.R2", fi.qual, "child paths extend the node's path; the node records old and new entry", fi.loc(), construct="paths / entries", message="compare does not build child paths as ret.path / k or record prev/curr")
 
 
 # ------------------------------------------------------------------------------------------- R3
 def r3_status(P, rep, ctx):
     fi = P.func(f"{D}.DiffNode.status")
-    g = ctx.cfg(fi)
-    tests = [norm(t.exprs[0]) for t in g.nodes if t.kind == "test"]
-    rep.check(tests == ["self.prev is None", "self.curr is None"], "C18.R3", fi.qual, "status is decided by identity tests on prev / curr only", fi.loc(), construct=f"status tests {tests}",
-              message=f"status() decides with {tests}: a truthiness test misclassifies an empty directory ({{}}) or an empty entry as removed/added")
-    mp = {}
-    for t in g.nodes:
-        if t.kind == "test":
-            for b, l in g.succ[t.idx]:
-                if l == "T" and isinstance(g.nodes[b].stmt, ast.Return):
-                    mp[norm(t.exprs[0])] = norm(g.nodes[b].stmt.value)
-    rets = [norm(x.value) for x in sorted((x for x in walk_local(fi.node) if isinstance(x, ast.Return)), key=lambda r: r.lineno)]
-    ok = mp.get("self.prev is None") == "DiffNode.Status.added" and mp.get("self.curr is None") == "DiffNode.Status.removed" and rets[-1:] == ["DiffNode.Status.modified"] and len(rets) == 3
-    rep.check(ok, "C18.R3", fi.qual, "prev is None -> added, curr is None -> removed, otherwise modified", fi.loc(), construct=f"status mapping {mp} / {rets}", message=f"status mapping is {mp}, final {rets[-1:]}")
-    ds = P.func(f"{D}.DirDiff.status")
-    t = norm(ds.node)
-    rep.check("if node is None: return DiffNode.Status.unchanged" in t.replace("\n", " ") and "return node.status()" in t, "C18.R3", ds.qual, "a path without diff node is unchanged", ds.loc(), construct="DirDiff.status", message="DirDiff.status(None) is not `unchanged` / does not delegate to node.status()")
-    gt = P.func(f"{D}.DirDiff.get")
-    t = norm(gt.node)
-    ok = "prefixes = [path] + list(path.parents)" in t and "prefixes.pop()" in t and "(x for x in curr.children() if x.path == path)" in t and "if node is None: return None" in t.replace("\n", " ") and "return curr" in t
-    rep.check(ok, "C18.R3", gt.qual, "lookup descends along the prefixes of the path, matching children by their full path", gt.loc(), construct="DirDiff.get", message="DirDiff.get does not walk the path's prefixes from the shortest, matching children by full path")
-    body = [norm(b) for b in gt.node.body if not (isinstance(b, ast.Expr) and isinstance(b.value, ast.Constant))]
-    rep.check("prefixes.pop()" in body and "if self._diff_root is None: return None" in [b.replace("\n", " ").replace("    ", " ").replace("  ", " ") for b in body], "C18.R3", gt.qual, "lookup drops the '.' prefix and returns None for an empty diff", gt.loc(), construct="get preamble", message="DirDiff.get lost its `prefixes.pop()` / empty-diff handling")
+    f = F(ctx, fi)
+    g = f.g
+    p_none, c_none = f.tests("self.prev is None"), f.tests("self.curr is None")
+    others = [norm(t.exprs[0]) for t in g.nodes if t.kind == "test" and t.idx not in f.test_nodes(p_none + c_none)]
+    rep.check(bool(p_none) and bool(c_none) and not others, "C18.R3", fi.qual, "status is decided by identity tests on prev / curr only", fi.loc(), construct="status tests",
+              message=f"status() decides with {others or 'fewer tests'}: a truthiness test misclassifies an empty directory ({{}}) or an empty entry as removed/added")
+    rets = {f.x(v): i for i, v in f.returns() if v is not None}
+    A, R, Mo = "DiffNode.Status.added", "DiffNode.Status.removed", "DiffNode.Status.modified"
+    ok = all(k in rets for k in (A, R, Mo)) and len(rets) == 3
+    if ok:
+        ok = (f.hit_before(rets[A], edges=p_none) and all(f.hit_before(g.exit, nodes=[rets[A]], src_edge=e) for e in p_none)
+              and f.under_all(rets[R], [f.neg(p_none), c_none]) and f.under_all(rets[Mo], [f.neg(p_none), f.neg(c_none)])
+              and bool(f.refuses_when([["self.prev is not None"], ["self.curr is None"]], targets=[rets[A], rets[Mo]])))
+    rep.check(ok, "C18.R3", fi.qual, "prev is None -> added, curr is None -> removed, otherwise modified", fi.loc(), construct="status mapping", message=f"status mapping changed: returns {sorted(rets)}")
+    dsfi = P.func(f"{D}.DirDiff.status")
+    ds = F(ctx, dsfi)
+    nd = dsfi.params[1]
+    none = ds.tests(f"{nd} is None")
+    r = {ds.x(v): i for i, v in ds.returns() if v is not None}
+    U, DEL = "DiffNode.Status.unchanged", f"{nd}.status()"
+    ok = bool(none) and set(r) == {U, DEL} and ds.hit_before(r[U], edges=none) and ds.hit_before(r[DEL], edges=ds.neg(none)) and all(ds.hit_before(ds.g.exit, nodes=[r[U]], src_edge=e) for e in none)
+    rep.check(ok, "C18.R3", dsfi.qual, "a path without diff node is unchanged", dsfi.loc(), construct="DirDiff.status", message="DirDiff.status(None) is not `unchanged` / does not delegate to node.status()")
+    gtfi = P.func(f"{D}.DirDiff.get")
+    gt = F(ctx, gtfi)
+    pp = gtfi.params[1]
+    # walk: for each proper prefix of the path (shortest first, '.' dropped) descend to the child whose full path equals the prefix
+    gens = [x for x in ast.walk(gtfi.node) if isinstance(x, ast.GeneratorExp) and len(x.generators) == 1 and len(x.generators[0].ifs) == 1 and MM.match("__c.children()", x.generators[0].iter) is not None]
+    ok = len(gens) == 1
+    if ok:
+        ge = gens[0]
+        xv = norm(ge.generators[0].target)
+        m = MM.match(f"{xv}.path == __q", ge.generators[0].ifs[0]) or MM.match(f"__q == {xv}.path", ge.generators[0].ifs[0])
+        ok = m is not None and norm(ge.elt) == xv
+        t = norm(gtfi.node)
+        shortest_first = ("prefixes.pop()" in t and f"[{pp}] + list({pp}.parents)" in t) or bool(_re_search(r"reversed\(", t) and (f"[{pp}, *{pp}.parents][:-1]" in t or f"list({pp}.parents)" in t))
+        ok = ok and shortest_first
+    empty = gt.tests("self._diff_root is None")
+    miss = gt.tests("__n is None")
+    miss = [e for e in miss if e not in empty]
+    nones = [i for i, v in gt.returns() if v is None or (isinstance(v, ast.Constant) and v.value is None)]
+    ok = ok and bool(empty) and bool(miss) and bool(nones) and all(gt.hit_before(gt.g.exit, nodes=nones, src_edge=e) for e in empty + miss)
+    rep.check(ok, "C18.R3", gtfi.qual, "lookup descends along the prefixes of the path, matching children by their full path", gtfi.loc(), construct="DirDiff.get", message="DirDiff.get does not walk the path's prefixes from the shortest, matching children by full path")
+    rep.check(bool(empty) and gt.refuses_when([["self._diff_root is None"]], targets=[i for i, v in gt.returns() if i not in nones]) is True, "C18.R3", gtfi.qual, "lookup returns None for an empty diff", gtfi.loc(), construct="get preamble", message="DirDiff.get lost its empty-diff handling")
     ch = P.func(f"{D}.DiffNode.children")
-    rep.check("[self.removed, self.modified, self.added]" in norm(ch.node), "C18.R3", ch.qual, "children() covers all three buckets", ch.loc(), construct="children()", message="children() does not chain removed, modified and added")
+    tch = norm(ch.node)
+    rep.check(all(f"self.{b}" in tch for b in ("removed", "modified", "added")), "C18.R3", ch.qual, "children() covers all three buckets", ch.loc(), construct="children()", message="children() does not chain removed, modified and added")
     ty = P.func(f"{D}.DiffNode._type")
-    rep.check("isinstance(entity, dict)" in norm(ty.node), "C18.R3", ty.qual, "directory type is decided by isinstance(dict) (empty dirs included)", ty.loc(), construct="_type", message="_type does not classify dicts (incl. empty) as directories")
+    rep.check(any(MM.match(f"isinstance({ty.params[-1]}, dict)", x) is not None for x in ast.walk(ty.node)), "C18.R3", ty.qual, "directory type is decided by isinstance(dict) (empty dirs included)", ty.loc(), construct="_type", message="_type does not classify dicts (incl. empty) as directories")
+
+
+def _re_search(p, t):
+    import re
+
+    return re.search(p, t)
